@@ -869,9 +869,16 @@ regp_recv(RegP *p, RPMaybeFrame *mf)
         /* Send EBUSY reply, based on fallback buffer */
         return early_ebusy(p, &fb);
     case ENOMEM:
-        /* Send ERXOVERFLOW reply, based on fallback buffer */
+        /* Send ERXOVERFLOW reply, based on fallback buffer. The frame has not
+         * been parsed, so its raw octets are found right behind the RPFrame
+         * structure at the start of the block; there may be fewer of them
+         * than a full header. */
         byte_buffer_rewind(&fb);
-        byte_buffer_add(&fb, mf->frame->raw.memory, RP_HEADER_SIZE);
+        if (cs.buffer.data != NULL && cs.buffer.used > sizeof(RPFrame)) {
+            const size_t have = cs.buffer.used - sizeof(RPFrame);
+            byte_buffer_add(&fb, cs.buffer.data + sizeof(RPFrame),
+                            have < RP_HEADER_SIZE ? have : RP_HEADER_SIZE);
+        }
         return early_erxoverflow(p, &fb);
     default:
         /* Unexpected error. Really shouldn't happen. */
